@@ -67,7 +67,13 @@ func (m *Machine) intV(i int64) *smt.Term  { return m.F.BVC(64, uint64(i)) }
 func (m *Machine) concStr(v Value, what string) string {
 	s := v.(Str)
 	if !s.Concrete() {
-		panic(m.unsupported(what + " on symbolic string"))
+		// enumerate the feasible values of each symbolic byte (forking; bounded by MaxConcretize)
+		m.note("string-concretized:%s", what)
+		out := make([]byte, s.Len())
+		for i := range out {
+			out[i] = byte(m.Concretize(s.B[i], what))
+		}
+		return string(out)
 	}
 	return s.S
 }
@@ -224,6 +230,7 @@ func init() {
 		return m.boolV(true)
 	}
 	externals[rt+"Observe"] = func(m *Machine, fr *Frame, a []Value) Value {
+		m.note("observe:%s:%s", m.concStr(a[0], "label"), m.sprint(fr, a[1], false))
 		return nil
 	}
 	externals[rt+"IsConcrete"] = func(m *Machine, fr *Frame, a []Value) Value {
